@@ -31,8 +31,8 @@ def main():
         seeds = [s for s in seeds if s in args]
     man = json.load(open(os.path.join(VERIF, "MANIFEST.json")))
     checks = {c["property_id"]: c for c in man["checks"]}
-    summary = []
-    for sid in seeds:
+    def one(sid):
+        summary = []
         d = os.path.join(VERIF, "seeded", sid)
         meta = json.load(open(os.path.join(d, "meta.json")))
         prop = meta["property"]
@@ -53,7 +53,7 @@ def main():
                     rc, out = sh("patch -p1 -d %s < %s" % (scratch, os.path.join(d, "patch.diff")))
             if rc != 0:
                 summary.append((sid, prop, "PATCH-DOES-NOT-APPLY", out[-300:]))
-                continue
+                return summary
             todo = list(checks) if all_checks else [prop]
             fired = {}
             for pid in todo:
@@ -70,6 +70,13 @@ def main():
             summary.append((sid, prop, status, "; ".join(rep)[:400] + (" | also fired: %s" % others if others else "")))
         finally:
             shutil.rmtree(scratch, ignore_errors=True)
+        return summary
+
+    import concurrent.futures as cf
+    summary = []
+    with cf.ThreadPoolExecutor(6) as ex:
+        for r in ex.map(one, seeds):
+            summary.extend(r)
     if all_checks and not args:
         with open(os.path.join(VERIF, "seeded", "RESULTS.json"), "w") as fh:
             json.dump([{"seed": a, "property": b, "status": c, "detail": d_[:600]} for a, b, c, d_ in summary], fh, indent=1)
